@@ -13,6 +13,9 @@ import sys
 CHECKERS = {}
 
 
+CREATORS = {}
+
+
 def perform(op):
     from harness import impl
     from harness.common import snapshot
@@ -50,6 +53,24 @@ def perform(op):
                 plarg = ["--piece-length", str(op["pl"])] if op.get("pl") else []
                 impl.cli(op.get("flags", []) + ["create", "--prog", "0"] + plarg +
                          ["--meta-version", ver, "-o", op["out"], op["path"]])
+                raw = open(op["out"], "rb").read()
+            elif op.get("reuse"):
+                # a long-lived caller keeps its creator object and asks it to assemble and
+                # write again later (the payload may have changed meanwhile); a fresh
+                # interpreter necessarily builds a new object
+                from harness.common import quiet
+                key = (op["reuse"], op["kind"], os.path.abspath(op["path"]), op.get("pl"))
+                with quiet():
+                    if key not in CREATORS:
+                        cls, extra = impl.creator(op["kind"])
+                        args = dict(path=op["path"], outfile=op["out"], progress=0, **extra)
+                        if op.get("pl"):
+                            args["piece_length"] = op["pl"]
+                        CREATORS[key] = cls(**args)
+                        CREATORS[key].write()
+                    else:
+                        CREATORS[key].assemble()
+                        CREATORS[key].write(op["out"])
                 raw = open(op["out"], "rb").read()
             else:
                 raw = impl.create(op["kind"], op["path"], op["out"], piece_length=op.get("pl"),
